@@ -70,10 +70,12 @@ def run_case(case) -> Result:
     while True:
         k += 1
         if k >= 3:
-            # two halvings are the rule; if the observed orders are still RISING towards 3 (pre-asymptotic regime, e.g. a
-            # step that is large compared with the curvature radius of the manifold) halve further, up to three more times
+            # two halvings are the rule; observed orders between 1.8 and 2.5 are inconclusive (pre-asymptotic regime: a step
+            # that is large compared with the curvature radius of the manifold, or a leading error coefficient that nearly
+            # cancels at this step size): halve further, up to three more times, and judge the last two orders - a scheme
+            # whose local error really is O(eps^2) stays at 2.0
             o = [math.log2(errs[j] / errs[j + 1]) for j in range(len(errs) - 1) if errs[j + 1] > 0]
-            if not (len(o) >= 2 and max(o) < 2.5 and o[-1] > o[-2] + 0.15 and o[-1] > 1.8 and errs[-1] > 1e-9 and k < 6):
+            if not (len(o) >= 2 and max(o[-2:]) < 2.5 and o[-1] > 1.8 and errs[-1] > 1e-9 and k < 6):
                 break
             res.classes.append("extra-halving")
         eps = eps0 / 2 ** k
